@@ -104,7 +104,20 @@ def zeroPseudoVersion (major : Bytes) : Except Err Bytes :=
   pseudoVersion major [] zeroTimestamp (([48, 48, 48, 48, 48, 48, 48, 48, 48, 48, 48, 48] /- "000000000000" -/ : Bytes))
 
 /-! ### IsPseudoVersion: hand-translated matcher for
-    `^v[0-9]+\.(0\.0-|\d+\.\d+-([^+]*\.)?0\.)\d{14}-[A-Za-z0-9]+(\+[0-9A-Za-z-]+(\.[0-9A-Za-z-]+)*)?$` -/
+    `^v[0-9]+\.(0\.0-|\d+\.\d+-([^+]*\.)?0\.)\d{14}-[A-Za-z0-9]+(\+[0-9A-Za-z-]+(\.[0-9A-Za-z-]+)*)?$`
+
+    Why the deterministic matcher below accepts exactly the language of this expression (Go syntax: `$` is end of
+    text, `\d` is [0-9], `[^+]` is any character but '+', newline included; on invalid UTF-8 each bad byte is
+    one U+FFFD, which `[^+]` matches, and the ASCII bytes the expression names never occur inside a multi-byte
+    sequence, so matching bytes and matching runes coincide):
+    * everything before the optional last group is '+'-free (`[0-9]`, `.`, `-`, `[^+]`, alphanumerics), and that
+      group starts with '+': so the group, if present, starts at the FIRST '+' of the text (`matchBuildRE` on the
+      text from the first '+', `matchHeadRE` on the text before it);
+    * `-[A-Za-z0-9]+` ends the head and the revision contains no '-': the revision is the text after the LAST '-'
+      of the head, non-empty and alphanumeric; `\d{14}` is the fourteen bytes before that '-';
+    * in what remains, `v[0-9]+\.`, `\d+\.` and `\d+-` are digit runs followed by a non-digit, so each run is the
+      maximal one (`takeWhile isDigit`); the rest must be `0.0-` exactly (first alternative) or, after the '-',
+      either `0.` or anything ending in `.0.` (second alternative: `([^+]*\.)?0\.`). -/
 
 def isDigit (c : UInt8) : Bool := 48 ≤ c && c ≤ 57
 
